@@ -19,8 +19,10 @@ MODE_WORDS = ("mode",)
 
 
 def _is_mode_expr(e):
-    s = U(e).lower()
-    return any(w in s for w in MODE_WORDS)
+    """the operand compared against the literals 'min' / 'max'.  Those two literals are used for nothing but the
+    optimisation mode in this code base (checked by the C15 sweep: an unknown shape is an analysis error), so the
+    operand's *name* is not consulted - a renamed local stays a mode test."""
+    return isinstance(e, (ast.Name, ast.Attribute, ast.Subscript, ast.Call))
 
 
 def mode_test(e, mode_flags=()):
